@@ -43,6 +43,7 @@ func init() {
 		Quick:      all("./proto", "./internal/impl", "./internal/order"),
 		Thorough:   allAndLegacy("./proto", "./internal/impl", "./internal/order"),
 		Run: func(c *Ctx) {
+			c.ruleEqualExtSymmetry("R-EQUAL-EXT-SYMMETRY")
 			c.ruleMergeClass("R-MERGE-CLASS", 60)
 			c.ruleOrder("R-ORDER", []string{"proto", "internal/impl", "internal/order", "internal/encoding/messageset"}, orderOpts{NondetGuard: nondetGuard, Floor: 6, Exempt: orderExemptCore, Filter: marshalPathFunc})
 			c.ruleOrderArg("R-ORDER-ARG", []string{"proto"}, false, 3)
